@@ -83,6 +83,20 @@ def cases(tier, rng):
                     offs = [rng.choice(grid) for _ in range(rng.randint(2, 3))]
                     out.append(build(t, tr, offs, beh, n, "several"))
                     n += 1
+    # connections ABORTED (RST) right after connect, in bursts: some resets arrive before the accept loop has taken the
+    # connection (then the per-connection setup fails inside the accept loop itself) — each must fail only itself
+    for t in (["PULL", "ROUTER"] if tier == "quick" else netgen.TYPES9):
+        peer = netgen.PEER[t]
+        for tr in (trs if tier != "quick" else ["tcp4"]):
+            for rounds in ((3,) if tier == "quick" else (3, 10)):
+                ops = [f"sock 1 {t}", f"bind 1 {tr}", "rawconn 1 ep#0", f"rawhs 1 {peer}", "rawwait 1 hs"]
+                for _ in range(rounds):
+                    ops += ["rawabort ep#0 40", f"probe ep#0 {peer}"]
+                ops += ["rawconn 2 ep#0", f"rawhs 2 {peer}", "rawwait 2 hs"]
+                if t == "PULL":
+                    ops += ["rawmsg 1 6f6c64", "recv 1", "rawmsg 2 6e6577", "recv 1"]
+                out.append(Case(f"abort-burst-{t}-{tr}#{n}", "net", ops, ["abort-burst"]))
+                n += 1
     return out
 
 
